@@ -8,5 +8,5 @@ theorem bottom_margin_outside : breaksInv (play before 4 3 [csi1 114 [1, 99]]) 3
 theorem cursor_follows_it : breaksInv (play before 4 3 [csi1 114 [1, 99], csi1 66 [99]]) 3 4 = true := by decide +kernel
 theorem top_margin_minus_one_then_sd_panics : panics (play before 4 3 [csi1 114 [0, 2], csi1 84]) = true := by decide +kernel
 theorem now_fine : fine (play Fixes.current 4 3 [csi1 114 [1, 99], csi1 66 [99], pr [97]]) 3 4 = true := by decide +kernel
-theorem now_fine' : fine (play Fixes.current 4 3 [csi1 114 [0, 2], csi1 84]) 3 4 = true := by decide +kernel
+theorem now_fine2 : fine (play Fixes.current 4 3 [csi1 114 [0, 2], csi1 84]) 3 4 = true := by decide +kernel
 end VaxisModel.Witness.F17
